@@ -358,9 +358,12 @@ def _decrypt_hmac(key: bytes, data: bytes, digest: str) -> bytes:
     cipher = _create_cipher(key, iv)
 
     decrypted = cipher.decrypt(encrypted)
-    if decrypted[-1] <= 16:
-        # PKCS#7 padding
-        decrypted = decrypted[: -decrypted[-1]]
+
+    # PKCS#7 padding, the padding is not covered by the HMAC so validate all of it
+    padding = decrypted[-1] if decrypted else 0
+    if not 1 <= padding <= 16 or decrypted[-padding:] != bytes([padding]) * padding:
+        raise ValueError("Invalid padding, wrong key?")
+    decrypted = decrypted[:-padding]
 
     # We don't do any secret crypto so we don't care about the warning in the docs about timing attacks
     # Some MAC types are truncated, e.g. HMAC-SHA-1-128 only stores the first 16 bytes of the digest
